@@ -38,9 +38,9 @@ def classify_e2e(case):
     obs = case.get("_obs", {})
     route = case.get("route", "?")
     own = case.get("own_of") or ""
-    if obs.get("tag_a") == obs.get("tag_b"):
+    if obs.get("tag_a") == obs.get("tag_b") or obs.get("tag_m") in (obs.get("tag_a"), obs.get("tag_b")):
         return "e2e-two-instances-emit-the-same-via-element"
-    looped = route in ("AA", "ABA") or own != ""
+    looped = route in ("AA", "ABA", "MM") or own != ""
     if looped and obs.get("status") != 400:
         kind = "loop-not-refused"
     elif looped and obs.get("contacts", 0) != 0:
